@@ -279,6 +279,26 @@ def run(ctx):
                     H.violation("monkeytype.stubs:FunctionDefinition.from_callable_and_traced_types", "C11-typeddict-class-name-collision|%s" % label if (dup and err is None) else "td-classes|%s|%s" % (key, type(err).__name__ if err else "denotes"),
                                 "generated TypedDict classes of two functions get the same name: the class is defined twice and both annotations denote the last definition",
                                 {"case": label, "order": order, "f.x": repr(ta), "h.x": repr(tb)}, {"duplicate_classes": dup, "error": repr(err), "stub": text[-700:]})
+        # ---- a TypedDict at the yield position: Iterator[...] is not a container the TypedDict replacement / the renderer walks
+        H.section("TypedDict yielded by a generator", "a function whose yield type is an anonymous TypedDict (alone, and with a return type next to it, which gives Generator[...]): the return annotation, evaluated in the stub's own namespace, "
+                  "denotes Iterator / Generator of the generated class", "2 shapes")
+        for label, ret in (("iterator", None), ("generator", int)):
+            key = "td-yield|%s" % label
+            try:
+                text = build_module_stubs_from_traces([CallTrace(target.f, {"x": int}, ret, td4)], 10)["target11"].render()
+                anns, classes = evaluate_stub(text, target)
+                got = anns.get("f", {}).get("return")
+                okc = got is not None and td_equiv(got.__args__[0], td4, classes)
+                err = None
+            except Exception as e:   # noqa
+                okc, err = False, e
+                text = locals().get("text", "")
+            if okc:
+                H.ok(key, sample={"case": label, "stub_tail": text[-160:]})
+            else:
+                H.violation("monkeytype.stubs:RenderAnnotation.generic_rewrite", "C11-yield-typeddict-forwardref-repr|%s" % label if "ForwardRef(" in text else "td-yield|%s|%s" % (label, type(err).__name__ if err else "denotes"),
+                            "a generator yielding a dict (k > 0) is annotated `Iterator[ForwardRef('...')]`: GenericTypeRewriter has no rewrite_Iterator, so the forward reference inside Iterator is rendered by repr() and the stub does not evaluate",
+                            {"case": label, "yield": repr(td4)}, {"error": repr(err), "stub": text[-500:]})
     finally:
         sys.path.remove(tmp)
         for n in ("zz11", "pkg11.zz11", "pkg11", "foo11", "barfoo11", "target11", "mytyping11", "ab11", "ba11"):
